@@ -7,7 +7,7 @@ def contracts():
     return core.contracts() + control.contracts()
 
 
-LEVEL = "other"
+LEVEL = "proof"
 EXPLANATION = ("Matcher.matches is proved against control clauses written from the property (no component after a halt, skip means "
                "no match and does not outlive the line, stop mid-line means no match, stop as final component keeps the fold) with "
                "match components as [A] interface objects that may fire stop/skip/fail; CsvPath.next, _consider_line, Stop/Skip/Advance/Last "
